@@ -11,3 +11,13 @@ func SetDetselHook(f func(int) []int) { verifhook.SetPerm(f) }
 // inserts before accesses to shared in-memory state of the engine (mutexes,
 // concurrent maps, atomics in internal/execute).
 func SetYieldHook(f func(string)) { verifhook.SetYield(f) }
+
+// SetYieldCtxHook installs the function called at the scheduling points that have a
+// context in scope (the simulator reads the incarnation of the caller from it).
+func SetYieldCtxHook(f func(ctx interface{ Value(any) any }, where string)) {
+	if f == nil {
+		verifhook.SetYieldCtx(nil)
+		return
+	}
+	verifhook.SetYieldCtx(func(c verifhook.Valuer, where string) { f(c, where) })
+}
